@@ -20,6 +20,20 @@ CHECKS = {
   "declared size and the success conditions of the statement. Held = no rejected execution among those run.",
   "trusts runtime/metrics allocation accounting and the wire re-encoder; allocation bound 2 MiB + 64 x len(input)",
   "DESIGN.md §5 C02"),
+ "C04": ("srvlab", "exploration",
+  "online reference-model monitor: every request/reply of sequential histories judged against an executable fid-table model, plus invocation/FidDestroy log of a scripted implementation",
+  "The real server framework runs in-process with a scripted implementation over scripted in-memory connections; each step of (a) all (fid state x request x outcome) transitions on fresh "
+  "connections with probes and a reuse sequence and (b) long random histories on 1-3 connections is compared with the reference fid table: validity, 'unknown fid'/'fid already in use' refusals "
+  "without invocation, object identity and user seen by the implementation, destruction exactly once and no later than the invalidating reply. Held on the histories run.",
+  "trusts the reference model (DESIGN.md Appendix C, three-valued), the wire codec and the scripted implementation's log; sequential histories only",
+  "DESIGN.md §5 C04"),
+ "C05": ("srvlab", "exploration",
+  "online reference-model monitor over the (fid state x request x argument class) product with a scripted implementation's invocation log",
+  "Same machinery as C04 with the rule table: must-refuse requests get Rerror and no invocation, must-forward requests exactly one invocation with the fid object, user and "
+  "arguments the client sent (digest comparison), count boundaries up to 2^32-1 at msize 64/256/8192, malformed Twrite, AuthCheck gate; every request is followed by requests that depend on "
+  "the state it left. Held on the product and the random histories run.",
+  "trusts the reference model (three-valued: silent cases are 'either'), the wire codec, the scripted implementation",
+  "DESIGN.md §5 C05"),
 }
 
 PENDING_REASON = "check not built yet in this revision of /verif (design in DESIGN.md §5); not claimed until its monitor exists and is silent on the unchanged tree"
@@ -44,6 +58,8 @@ def main():
         "engines": [
             {"name": "codec", "path": "harness/lab/codec", "serves_properties": ["C01", "C02"],
              "kind_free_text": "in-process differential monitor of go9p's codec against the independent codec harness/wire"},
+            {"name": "srvlab", "path": "harness/lab/srvlab", "serves_properties": ["C03", "C04", "C05", "C07", "C08", "C11", "C12", "C13"],
+             "kind_free_text": "real server framework + scripted implementation (harness/script) over scripted connections (harness/memconn), schedule-point controller (harness/sched), reference models (harness/model)"},
         ],
         "checks": [],
         "not_applicable": [],
